@@ -81,7 +81,10 @@ impl PathSelector {
                     .included_paths
                     .iter()
                     .any(|p| p.matches_partially(&path)))
-                && self.excluded_paths.iter().all(|p| !p.matches_prefix(&path))
+                && self
+                    .excluded_paths
+                    .iter()
+                    .all(|p| !p.matches_subtree(&path))
         })
     }
 
